@@ -2097,13 +2097,19 @@ static void build_expr(WorkList *list, ASTNode *expr, Environment *env) {
         }
         
         case AST_IF: {
-            /* Ternary operator */
+            /* Ternary operator; a `{ expr }` branch stands for its expression */
+            ASTNode *then_branch = expr->as.if_stmt.then_branch;
+            ASTNode *else_branch = expr->as.if_stmt.else_branch;
+            if (if_branch_value(then_branch) && if_branch_value(else_branch)) {
+                then_branch = if_branch_value(then_branch);
+                else_branch = if_branch_value(else_branch);
+            }
             emit_literal(list, "(");
             build_expr(list, expr->as.if_stmt.condition, env);
             emit_literal(list, " ? ");
-            build_expr(list, expr->as.if_stmt.then_branch, env);
+            build_expr(list, then_branch, env);
             emit_literal(list, " : ");
-            build_expr(list, expr->as.if_stmt.else_branch, env);
+            build_expr(list, else_branch, env);
             emit_literal(list, ")");
             break;
         }
